@@ -8,6 +8,7 @@ import (
 	"fmt"
 
 	"github.com/gmrtd/gmrtd/document"
+	"github.com/gmrtd/gmrtd/verifier"
 
 	"verif/internal/e2e"
 	"verif/internal/lz"
@@ -20,7 +21,7 @@ import (
 
 func init() {
 	vc.Register(&vc.Check{ID: "C14", Level: "exploration", Run: run, Replay: replay, QuickSec: 170, ThoroSec: 1800,
-		Rule: "live reads of the independent chip over the mechanism matrix {CA: 11 curves x 4 suites x {BAC,PACE}; PACE-CAM: 11 parameter ids x 3 suites; AA-RSA: 5 trailers; AA-ECDSA: 11 curves; trusted/untrusted issuer}, each serialised with DocumentEx.ToCbor and verified with verifier.Verify: PA verdict, completeness verdict and every mechanism verdict must equal the live ones. Then for EVERY evidence field (10 PACE-CAM, 4 CA, 3 AA) x the value-changing mutation set {every single-bit flip, zeroed, last byte dropped, one byte appended, same field of another genuine session, integers +-1, each other supported OID} the bundle is re-serialised with the library's own writer and the corresponding verdict must be unsuccessful; the documented joint replacement (ChipKaPub, EcadIC) is generated and must pass. For every file x every single-bit flip: PA or parsing fails. distinct_nontrivial = distinct (mechanism, field, mutation kind, outcome)",
+		Rule:   "live reads of the independent chip over the mechanism matrix {CA: 11 curves x 4 suites x {BAC,PACE}; PACE-CAM: 11 parameter ids x 3 suites; AA-RSA: 5 trailers; AA-ECDSA: 11 curves; trusted/untrusted issuer}, each serialised with DocumentEx.ToCbor and verified with verifier.Verify: PA verdict, completeness verdict and every mechanism verdict must equal the live ones. Then for EVERY evidence field (10 PACE-CAM, 4 CA, 3 AA) x the value-changing mutation set {every single-bit flip, zeroed, last byte dropped, one byte appended, same field of another genuine session, integers +-1, each other supported OID} the bundle is re-serialised with the library's own writer and the corresponding verdict must be unsuccessful; the documented joint replacement (ChipKaPub, EcadIC) is generated and must pass. For every file x every single-bit flip: PA or parsing fails. Histories: every sequence of up to 3 Verify calls {genuine, tampered, another session's export, unparseable} on ONE Verifier reports per call what a fresh Verifier reports. distinct_nontrivial = distinct (mechanism, field, mutation kind, outcome)",
 		Assume: []string{"representation-only changes (leading zero octets) are not value changes and are not generated", "a contained panic is not counted as 'verdict unsuccessful': it is reported"}})
 }
 
@@ -217,8 +218,11 @@ func run(c *vc.Ctx) {
 	secA := "live vs offline verdicts"
 	secB := "evidence field mutations"
 	secC := "file bit flips"
+	secD := "histories on one Verifier"
+	var prevBlob []byte
 	c.SecBound(secA, fmt.Sprintf("%d genuine sessions", len(ss)))
 	c.SecBound(secB, "every byte-string field x {every bit (every 3rd bit for fields > 40 bytes in quick), zeroed, last byte dropped, one byte appended, other session}; ParameterId +-1; PaceOid / AA Algorithm -> every other supported OID; joint (ChipKaPub, EcadIC) replacement must pass")
+	c.SecBound(secD, "per session: every history of up to 3 Verify calls over {genuine export, export with one evidence field tampered, genuine export of the previous session of this worker, unparseable blob} on ONE Verifier; every call must report what a fresh Verifier reports for that blob")
 	fields := byteFields()
 	fileSweepDone := 0
 	for si, sess := range ss {
@@ -397,6 +401,85 @@ func run(c *vc.Ctx) {
 				}
 				try("AA", "Algorithm", "other-oid@"+o.String(), func() { ev.Algorithm = o }, func() { ev.Algorithm = oo }, false)
 			}
+		}
+		// histories on ONE verifier: what one Verify call reports must not depend on what the same Verifier
+		// verified before (differential against a fresh Verifier per blob)
+		{
+			pool, perr := e2e.Pool(p.Store)
+			var tampered []byte
+			for _, f := range fields {
+				if has(d, f.Mech) {
+					orig := f.Get(d)
+					if len(orig) == 0 {
+						continue
+					}
+					m := bytes.Clone(orig)
+					m[len(m)/2] ^= 0x10
+					f.Set(d, m)
+					tampered, _ = d.ToCbor()
+					f.Set(d, orig)
+					break
+				}
+			}
+			blobs := map[byte][]byte{'G': blob, 'X': {0xFF, 0x00}}
+			alpha := "GX"
+			if tampered != nil {
+				blobs['T'] = tampered
+				alpha += "T"
+			}
+			if prevBlob != nil {
+				blobs['P'] = prevBlob
+				alpha += "P"
+			}
+			obs := func(d *document.DocumentEx, err error, pv any) string {
+				if pv != nil {
+					return fmt.Sprintf("panic %v", pv)
+				}
+				if err != nil || d == nil {
+					return "hard-error"
+				}
+				return fmt.Sprintf("%+v", verdictsOf(d))
+			}
+			fresh := map[byte]string{}
+			if perr == nil {
+				for k, b := range blobs {
+					var dd *document.DocumentEx
+					var err error
+					pv, _ := vc.Guard(func() { dd, err = verifier.NewVerifier(pool).Verify(b) })
+					fresh[k] = obs(dd, err, pv)
+				}
+				var seqs []string
+				var gen func(s string)
+				gen = func(s string) {
+					if len(s) > 0 {
+						seqs = append(seqs, s)
+					}
+					if len(s) == 3 {
+						return
+					}
+					for _, a := range alpha {
+						gen(s + string(a))
+					}
+				}
+				gen("")
+				for _, sq := range seqs {
+					vf := verifier.NewVerifier(pool)
+					for i := 0; i < len(sq); i++ {
+						var dd *document.DocumentEx
+						var err error
+						pv, _ := vc.Guard(func() { dd, err = vf.Verify(blobs[sq[i]]) })
+						got := obs(dd, err, pv)
+						c.Eval(1)
+						c.Outcome(secD, map[bool]string{true: "same-as-fresh", false: "DIFFERS"}[got == fresh[sq[i]]])
+						if got != fresh[sq[i]] {
+							c.Violation(secD, "reused-verifier-differs-from-fresh/"+string(sq[i]), fmt.Sprintf("session %s: call %d of history %s on one Verifier (G genuine, T one evidence field tampered, P genuine export of another session, X unparseable) reports %s; a fresh Verifier reports %s", sess.Name, i+1, sq, got, fresh[sq[i]]), caseRec{Session: sess.Name, Mutation: "history " + sq}, nil)
+							break
+						}
+					}
+				}
+				c.Distinct("D/" + sess.Name)
+			}
+			prevBlob = blob
 		}
 		// file bit flips on a few sessions
 		if fileSweepDone < 2 && (has(d, "CA") || has(d, "CAM")) {
